@@ -883,6 +883,7 @@ class Translator:
         if fn.effects or fn.snapshot:
             if fn.effects:
                 ety = next(iter(fn.effects.values()))
+                ety = ety[1] if ety[0] == "T" and len(ety) == 2 else ety        # an effect call with one argument
             else:
                 tys = [fn.state[x] for x in next(iter(fn.snapshot.values()))]
                 ety = tys[0] if len(tys) == 1 else ("T", *tys)
